@@ -284,4 +284,15 @@ def run(ctx):
             r3.violation("backspace", "no back-space path handles a pending sign", common.fn_line(prog, bs))
     except PathLimit as e:
         r3.undecidable("backspace", str(e))
-    r3.floor(6, "not-shown, session, ≥2 back-space paths with a pending sign, exits")
+    # what is shown is rebuilt from the composed text after every key that changed it
+    gs = roles[fx]["get_suggestion"]
+    gb = prog.body(gs)
+    kv_calls = [bb for (bb, t) in gb.calls() if callee_name(t) == kv]
+    sug_calls = [bb for (bb, t) in gb.calls() if callee_name(t) in prog.fns and callee_name(t) != kv and prog.fns[callee_name(t)].get("output") == builders.SUGG
+                 and "&mut" in (prog.fns[callee_name(t)].get("inputs") or [""])[0]]
+    if kv_calls and all(any(gb.postdominates(c, k) for c in sug_calls) for k in kv_calls):
+        r3.ok("rebuilt", "the suggestion is rebuilt from the composed text after every processed key")
+    else:
+        r3.violation("rebuilt", "a processed key can return a suggestion that was not rebuilt from the new composed text (e.g. after a two-part sign fusion)",
+                     common.fn_line(prog, gs))
+    r3.floor(7, "not-shown, session, rebuilt, ≥2 back-space paths with a pending sign, exits")
